@@ -12,11 +12,11 @@ int cmd_c12(int argc, char **argv) {
   th[1] = 1e-3; th[2] = 0.02; th[3] = 0.049; th[4] = 0.3; th[21] = PI - 0.3; th[22] = PI - 0.03; th[23] = PI - 1e-3;
   double ph[8]; for (int j = 0; j < 8; j++) ph[j] = PI * j / 4.0;
   /* non-positive energies: every function of E must fail */
-  { double bad[] = {0.0, -1.0, -1e-300}; for (int b = 0; b < 3; b++) { double E = bad[b]; xrl_error *e[6] = {0}; double v[6];
-      v[0] = CS_KN(E, &e[0]); v[1] = DCS_KN(E, 1.0, &e[1]); v[2] = ComptonEnergy(E, 1.0, &e[2]); v[3] = DCSP_KN(E, 1.0, 0.5, &e[3]); v[4] = MomentTransf(E, 1.0, &e[4]); v[5] = DCS_Thoms(1.0, &e[5]);
-      fputs("{\"k\":\"cfbad\",\"E\":", OUT); jd(E); fputs(",\"err\":[", OUT); for (int i = 0; i < 6; i++) { fprintf(OUT, "%s%d", i ? "," : "", e[i] != NULL); xrl_clear_error(&e[i]); } fputc(']', OUT); arr("v", 6, v); fputs("}\n", OUT); } }
+  { double bad[] = {0.0, -1.0, -1e-300}; double bth[] = {1.0, 0.0, PI, 4.0}; for (int b = 0; b < 12; b++) { double E = bad[b % 3], t = bth[b / 3]; xrl_error *e[6] = {0}; double v[6];
+      v[0] = CS_KN(E, &e[0]); v[1] = DCS_KN(E, t, &e[1]); v[2] = ComptonEnergy(E, t, &e[2]); v[3] = DCSP_KN(E, t, 0.5, &e[3]); v[4] = MomentTransf(E, t, &e[4]); v[5] = DCS_Thoms(t, &e[5]);
+      fputs("{\"k\":\"cfbad\",\"E\":", OUT); jd(E); fputs(",\"t\":", OUT); jd(t); fputs(",\"err\":[", OUT); for (int i = 0; i < 6; i++) { fprintf(OUT, "%s%d", i ? "," : "", e[i] != NULL); xrl_clear_error(&e[i]); } fputc(']', OUT); arr("v", 6, v); fputs("}\n", OUT); } }
   for (int k = 0; k < ne; k++) {
-    double E = pow(10.0, -6.0 + 12.0 * k / (ne - 1));
+    double E = pow(10.0, -6.0 + 15.0 * k / (ne - 1));
     double a = E / MEC2, W = log1p(2 * a);
     double Th[25], KN[25], CE[25], MT[25], KNm[25], KNp[25], Thm[25], Thp[25], CEm[25], CEp[25], ThP[25 * 8], KNP[25 * 8], KNPm[25 * 8], gth[48], gKN[48];
     for (int i = 0; i < 25; i++) {
